@@ -16,6 +16,10 @@ pub struct Bus {
     inbox: Arc<Mutex<Vec<[u8; 16]>>>,
     stop: Arc<AtomicBool>,
     reader: Option<std::thread::JoinHandle<()>>,
+    /// peers that never read (the tick / command clones of an authority under a rig): once their queue is full a frame
+    /// for them is dropped at once instead of after the write timeout (only when `impatient`)
+    stale: Mutex<std::collections::HashSet<PathBuf>>,
+    pub impatient: bool,
 }
 
 static mut BUS_ROOT: Option<PathBuf> = None;
@@ -77,7 +81,7 @@ impl Bus {
         });
         let marker_sock = UnixDatagram::unbound().unwrap();
         marker_sock.set_nonblocking(true).unwrap();
-        Bus { dir, iface: iface.to_string(), sock, marker_sock, own, inbox, stop, reader: Some(reader) }
+        Bus { dir, iface: iface.to_string(), sock, marker_sock, own, inbox, stop, reader: Some(reader), stale: Mutex::new(Default::default()), impatient: false }
     }
 
     /// Put a raw 16-byte can_frame on the bus (delivered to every other socket).
@@ -89,8 +93,17 @@ impl Bus {
             if p == self.own || p.extension().map(|e| e != "sock").unwrap_or(true) {
                 continue;
             }
+            if self.impatient && self.stale.lock().unwrap().contains(&p) {
+                // non-blocking: the marker socket is unbound and non-blocking (the sender address plays no role)
+                if self.marker_sock.send_to(raw, &p).is_ok() {
+                    n += 1;
+                }
+                continue;
+            }
             if self.sock.send_to(raw, &p).is_ok() {
                 n += 1;
+            } else if self.impatient {
+                self.stale.lock().unwrap().insert(p);
             }
         }
         n
